@@ -112,3 +112,138 @@ package dsl
 //@   pure
 //@ func GetUnderlyingType
 //@   pure
+
+// ---- C06: evolution verdicts match the documented classes (docs/cpp/evolution.md) -----------------------
+//@ spec func isIntPrim(p PrimitiveDefinition) bool = p == Int8 || p == Int16 || p == Int32 || p == Int64 || p == Uint8 || p == Uint16 || p == Uint32 || p == Uint64 || p == Size
+//@ spec func isFloatPrim(p PrimitiveDefinition) bool = p == Float32 || p == Float64
+//@ spec func isComplexPrim(p PrimitiveDefinition) bool = p == ComplexFloat32 || p == ComplexFloat64
+//@ spec func isNumPrim(p PrimitiveDefinition) bool = isIntPrim(p) || isFloatPrim(p)
+
+//@ func GetPrimitiveKind
+//@   property C06,C19
+//@   pure
+//@   ensures kind_integer: isIntPrim(t) <==> result == PrimitiveKindInteger
+//@   ensures kind_float:   isFloatPrim(t) <==> result == PrimitiveKindFloatingPoint
+//@   ensures kind_complex: isComplexPrim(t) <==> result == PrimitiveKindComplexFloatingPoint
+//@   ensures kind_other:   !isIntPrim(t) && !isFloatPrim(t) && !isComplexPrim(t) <==> result == PrimitiveKindOther
+
+//@ spec func oldP(t *SimpleType) PrimitiveDefinition = t.ResolvedDefinition.(PrimitiveDefinition)
+// Primitive type changes: equal -> no change; number<->number, number<->string, complex<->complex are the
+// partially compatible classes (accepted with a warning); everything else is incompatible.
+//@ func detectPrimitiveTypeChange
+//@   property C06
+//@   requires newType != nil && oldType != nil
+//@   requires typeof(newType.ResolvedDefinition) == PrimitiveDefinition && typeof(oldType.ResolvedDefinition) == PrimitiveDefinition
+//@   ensures same_is_unchanged:   oldP(newType) == oldP(oldType) <==> result == nil
+//@   ensures number_to_number:    oldP(newType) != oldP(oldType) && isNumPrim(oldP(oldType)) && isNumPrim(oldP(newType)) ==> typeof(result) == *TypeChangeNumberToNumber
+//@   ensures number_to_string:    isNumPrim(oldP(oldType)) && oldP(newType) == String ==> typeof(result) == *TypeChangeNumberToString
+//@   ensures string_to_number:    oldP(oldType) == String && isNumPrim(oldP(newType)) ==> typeof(result) == *TypeChangeStringToNumber
+//@   ensures complex_to_complex:  oldP(newType) != oldP(oldType) && isComplexPrim(oldP(oldType)) && isComplexPrim(oldP(newType)) ==> typeof(result) == *TypeChangeComplexToComplex
+//@   ensures otherwise_incompatible: oldP(newType) != oldP(oldType) && !(isNumPrim(oldP(oldType)) && (isNumPrim(oldP(newType)) || oldP(newType) == String)) && !(oldP(oldType) == String && isNumPrim(oldP(newType))) && !(isComplexPrim(oldP(oldType)) && isComplexPrim(oldP(newType))) ==> typeof(result) == *TypeChangeIncompatible
+//@   ensures carries_both_types_n2n:  typeof(result) == *TypeChangeNumberToNumber ==> result.(*TypeChangeNumberToNumber).Old == oldType && result.(*TypeChangeNumberToNumber).New == newType
+//@   ensures carries_both_types_inc:  typeof(result) == *TypeChangeIncompatible ==> result.(*TypeChangeIncompatible).Old == oldType && result.(*TypeChangeIncompatible).New == newType
+
+// A change is an error exactly when its innermost change (through stream / vector / optional wrappers) is Incompatible.
+//@ func typeChangeIsError
+//@   property C06
+//@   pure
+//@   ensures incompatible_is_error: typeof(tc) == *TypeChangeIncompatible ==> result
+//@   ensures through_stream:   typeof(tc) == *TypeChangeStreamTypeChanged && tc.(*TypeChangeStreamTypeChanged) != nil ==> result == typeChangeIsError(tc.(*TypeChangeStreamTypeChanged).InnerChange)
+//@   ensures through_vector:   typeof(tc) == *TypeChangeVectorTypeChanged && tc.(*TypeChangeVectorTypeChanged) != nil ==> result == typeChangeIsError(tc.(*TypeChangeVectorTypeChanged).InnerChange)
+//@   ensures through_optional: typeof(tc) == *TypeChangeOptionalTypeChanged && tc.(*TypeChangeOptionalTypeChanged) != nil ==> result == typeChangeIsError(tc.(*TypeChangeOptionalTypeChanged).InnerChange)
+//@   ensures partially_compatible_is_not_error: typeof(tc) == *TypeChangeNumberToNumber || typeof(tc) == *TypeChangeComplexToComplex || typeof(tc) == *TypeChangeNumberToString || typeof(tc) == *TypeChangeStringToNumber || typeof(tc) == *TypeChangeScalarToOptional || typeof(tc) == *TypeChangeOptionalToScalar || typeof(tc) == *TypeChangeScalarToUnion || typeof(tc) == *TypeChangeUnionToScalar || typeof(tc) == *TypeChangeOptionalToUnion || typeof(tc) == *TypeChangeUnionToOptional || typeof(tc) == *TypeChangeUnionTypesetChanged || typeof(tc) == *TypeChangeDefinitionChanged ==> !result
+
+// Every partially compatible class has a documented, non-empty warning text.
+//@ func typeChangeWarningReason
+//@   property C06
+//@   ensures number_changes_warn: typeof(tc) == *TypeChangeNumberToNumber || typeof(tc) == *TypeChangeComplexToComplex ==> result == "may result in numeric overflow or loss of precision"
+//@   ensures string_number_changes_warn: (typeof(tc) == *TypeChangeNumberToString && tc.(*TypeChangeNumberToString) != nil) || (typeof(tc) == *TypeChangeStringToNumber && tc.(*TypeChangeStringToNumber) != nil) ==> len(result) > 0
+//@   ensures optional_changes_warn: (typeof(tc) == *TypeChangeScalarToOptional && tc.(*TypeChangeScalarToOptional) != nil) || (typeof(tc) == *TypeChangeOptionalToScalar && tc.(*TypeChangeOptionalToScalar) != nil) ==> len(result) > 0
+//@   ensures union_changes_warn: (typeof(tc) == *TypeChangeScalarToUnion && tc.(*TypeChangeScalarToUnion) != nil) || (typeof(tc) == *TypeChangeUnionToScalar && tc.(*TypeChangeUnionToScalar) != nil) ==> len(result) > 0
+
+// ---- C05 / C06: Inverse() maps every change class to its documented dual and swaps old and new ------------
+//@ func (*TypeChangeNumberToNumber).Inverse
+//@   property C05,C06
+//@   requires tc != nil
+//@   ensures dual_class: typeof(result) == *TypeChangeNumberToNumber
+//@   ensures swaps_old_new: result.(*TypeChangeNumberToNumber).Old == old(tc.New) && result.(*TypeChangeNumberToNumber).New == old(tc.Old)
+//@ func (*TypeChangeComplexToComplex).Inverse
+//@   property C05,C06
+//@   requires tc != nil
+//@   ensures dual_class: typeof(result) == *TypeChangeComplexToComplex
+//@   ensures swaps_old_new: result.(*TypeChangeComplexToComplex).Old == old(tc.New) && result.(*TypeChangeComplexToComplex).New == old(tc.Old)
+//@ func (*TypeChangeNumberToString).Inverse
+//@   property C05,C06
+//@   requires tc != nil
+//@   ensures dual_class: typeof(result) == *TypeChangeStringToNumber
+//@   ensures swaps_old_new: result.(*TypeChangeStringToNumber).Old == old(tc.New) && result.(*TypeChangeStringToNumber).New == old(tc.Old)
+//@ func (*TypeChangeStringToNumber).Inverse
+//@   property C05,C06
+//@   requires tc != nil
+//@   ensures dual_class: typeof(result) == *TypeChangeNumberToString
+//@   ensures swaps_old_new: result.(*TypeChangeNumberToString).Old == old(tc.New) && result.(*TypeChangeNumberToString).New == old(tc.Old)
+//@ func (*TypeChangeScalarToOptional).Inverse
+//@   property C05,C06
+//@   requires tc != nil
+//@   ensures dual_class: typeof(result) == *TypeChangeOptionalToScalar
+//@   ensures swaps_old_new: result.(*TypeChangeOptionalToScalar).Old == old(tc.New) && result.(*TypeChangeOptionalToScalar).New == old(tc.Old)
+//@ func (*TypeChangeOptionalToScalar).Inverse
+//@   property C05,C06
+//@   requires tc != nil
+//@   ensures dual_class: typeof(result) == *TypeChangeScalarToOptional
+//@   ensures swaps_old_new: result.(*TypeChangeScalarToOptional).Old == old(tc.New) && result.(*TypeChangeScalarToOptional).New == old(tc.Old)
+//@ func (*TypeChangeScalarToUnion).Inverse
+//@   property C05,C06
+//@   requires tc != nil
+//@   ensures dual_class: typeof(result) == *TypeChangeUnionToScalar
+//@   ensures swaps_old_new: result.(*TypeChangeUnionToScalar).Old == old(tc.New) && result.(*TypeChangeUnionToScalar).New == old(tc.Old)
+//@   ensures keeps_case_index: result.(*TypeChangeUnionToScalar).TypeIndex == tc.TypeIndex
+//@ func (*TypeChangeUnionToScalar).Inverse
+//@   property C05,C06
+//@   requires tc != nil
+//@   ensures dual_class: typeof(result) == *TypeChangeScalarToUnion
+//@   ensures swaps_old_new: result.(*TypeChangeScalarToUnion).Old == old(tc.New) && result.(*TypeChangeScalarToUnion).New == old(tc.Old)
+//@   ensures keeps_case_index: result.(*TypeChangeScalarToUnion).TypeIndex == tc.TypeIndex
+//@ func (*TypeChangeUnionToOptional).Inverse
+//@   property C05,C06
+//@   requires tc != nil
+//@   ensures dual_class: typeof(result) == *TypeChangeOptionalToUnion
+//@   ensures swaps_old_new: result.(*TypeChangeOptionalToUnion).Old == old(tc.New) && result.(*TypeChangeOptionalToUnion).New == old(tc.Old)
+//@   ensures keeps_case_index: result.(*TypeChangeOptionalToUnion).TypeIndex == tc.TypeIndex
+//@ func (*TypeChangeOptionalToUnion).Inverse
+//@   property C05,C06
+//@   requires tc != nil
+//@   ensures dual_class: typeof(result) == *TypeChangeUnionToOptional
+//@   ensures swaps_old_new: result.(*TypeChangeUnionToOptional).Old == old(tc.New) && result.(*TypeChangeUnionToOptional).New == old(tc.Old)
+//@   ensures keeps_case_index: result.(*TypeChangeUnionToOptional).TypeIndex == tc.TypeIndex
+//@ func (*TypeChangeIncompatible).Inverse
+//@   property C05,C06
+//@   requires tc != nil
+//@   ensures dual_class: typeof(result) == *TypeChangeIncompatible
+//@   ensures swaps_old_new: result.(*TypeChangeIncompatible).Old == old(tc.New) && result.(*TypeChangeIncompatible).New == old(tc.Old)
+//@ func (*TypeChangeDefinitionChanged).Inverse
+//@   property C05,C06
+//@   requires tc != nil
+//@   ensures dual_class: typeof(result) == *TypeChangeDefinitionChanged
+//@   ensures swaps_old_new: result.(*TypeChangeDefinitionChanged).Old == old(tc.New) && result.(*TypeChangeDefinitionChanged).New == old(tc.Old)
+//@   ensures keeps_definition_change: result.(*TypeChangeDefinitionChanged).DefinitionChange == tc.DefinitionChange
+//@ func (*TypeChangeUnionTypesetChanged).Inverse
+//@   property C05,C06
+//@   requires tc != nil
+//@   ensures dual_class: typeof(result) == *TypeChangeUnionTypesetChanged
+//@   ensures swaps_old_new: result.(*TypeChangeUnionTypesetChanged).Old == old(tc.New) && result.(*TypeChangeUnionTypesetChanged).New == old(tc.Old)
+//@ func (*TypeChangeStreamTypeChanged).Inverse
+//@   property C05,C06
+//@   requires tc != nil
+//@   ensures dual_class: typeof(result) == *TypeChangeStreamTypeChanged
+//@   ensures swaps_old_new: result.(*TypeChangeStreamTypeChanged).Old == old(tc.New) && result.(*TypeChangeStreamTypeChanged).New == old(tc.Old)
+//@ func (*TypeChangeVectorTypeChanged).Inverse
+//@   property C05,C06
+//@   requires tc != nil
+//@   ensures dual_class: typeof(result) == *TypeChangeVectorTypeChanged
+//@   ensures swaps_old_new: result.(*TypeChangeVectorTypeChanged).Old == old(tc.New) && result.(*TypeChangeVectorTypeChanged).New == old(tc.Old)
+//@ func (*TypeChangeOptionalTypeChanged).Inverse
+//@   property C05,C06
+//@   requires tc != nil
+//@   ensures dual_class: typeof(result) == *TypeChangeOptionalTypeChanged
+//@   ensures swaps_old_new: result.(*TypeChangeOptionalTypeChanged).Old == old(tc.New) && result.(*TypeChangeOptionalTypeChanged).New == old(tc.Old)
